@@ -7,6 +7,20 @@ from core import Corr, Violation, run_driver
 from extract import c06_kmeans
 
 ID = "C06"
+#: functions the hand-written model transcribes: their control skeleton (extract/shape.py) is regenerated into
+#: Gen/C06.lean and compared with the literal in Properties/C06.lean (`modelled_functions_have_the_transcribed_shape`)
+SHAPES = [
+    ("shapeLloyd", "mlinsights/mlmodel/kmeans_l1.py", "_kmeans_single_lloyd"),
+    ("shapeCentersDense", "mlinsights/mlmodel/kmeans_l1.py", "_centers_dense"),
+    ("shapeLabelsInertia", "mlinsights/mlmodel/kmeans_l1.py", "_labels_inertia"),
+    ("shapeInitCentroids", "mlinsights/mlmodel/kmeans_l1.py", "_init_centroids"),
+    ("shapeFit", "mlinsights/mlmodel/kmeans_l1.py", "KMeansL1L2.fit"),
+    ("shapeFitL1", "mlinsights/mlmodel/kmeans_l1.py", "KMeansL1L2._fit_l1"),
+    ("shapePredict", "mlinsights/mlmodel/kmeans_l1.py", "KMeansL1L2.predict"),
+    ("shapePredictL1", "mlinsights/mlmodel/kmeans_l1.py", "KMeansL1L2._predict_l1"),
+    ("shapeTransform", "mlinsights/mlmodel/kmeans_l1.py", "KMeansL1L2.transform"),
+    ("shapeTransformL1", "mlinsights/mlmodel/kmeans_l1.py", "KMeansL1L2._transform_l1"),
+]
 SRC = c06_kmeans.SRC
 LEAN_TARGETS = ["MlVerif.Gen.C06", "MlVerif.Model.KMedians", "MlVerif.Lemmas.KMedians", "MlVerif.Properties.C06"]
 PROPERTY_FILE = "MlVerif/Properties/C06.lean"
@@ -502,23 +516,29 @@ def check_l1(K, case):
     if not ((C >= lo).all() and (C <= hi).all()):
         bad.append(("fit[L1]:centre-out-of-range", "a centre lies outside the coordinate-wise range of the data",
                     C.tolist(), {"min": lo.tolist(), "max": hi.tolist()}))
-    Q = numpy.array(case.get("Q") or case["X"], dtype=case["dtype"])
-    Q64 = Q.astype(float)
-    DQ = numpy.abs(Q64[:, None, :] - C[None, :, :]).sum(-1)
-    try:
-        with warnings.catch_warnings():
-            warnings.simplefilter("ignore")
-            p = numpy.asarray(est.predict(Q))
-            tr = numpy.asarray(est.transform(Q), dtype=float)
-    except Exception as e:
-        return bad + [("predict[L1]:raises", "predict/transform raise on a fitted L1 model",
-                       "%s: %s" % (type(e).__name__, str(e)[:120]), "labels / distances")]
-    if p.shape != (len(Q),) or not (DQ[numpy.arange(len(Q)), p] == DQ.min(axis=1)).all():
-        bad.append(("predict[L1]:not-nearest", "predict does not return a Manhattan-nearest centre", p.tolist(),
-                    DQ.argmin(axis=1).tolist()))
-    if tr.shape != DQ.shape or not (tr == DQ).all():
-        bad.append(("transform[L1]:not-manhattan", "transform is not the Manhattan distance to every centre",
-                    tr.tolist(), DQ.tolist()))
+    Qf = numpy.array(case.get("Q") or case["X"], dtype=case["dtype"])
+    # the query batch in the training dtype, and (the grid is integral) as an integer-typed array: the centres the
+    # distances refer to are the fitted ones whatever the dtype of the rows to label
+    variants = [("", Qf)]
+    if (Qf == numpy.round(Qf)).all():
+        variants.append(("[int64 batch]", Qf.astype(numpy.int64)))
+    for tag, Q in variants:
+        Q64 = Q.astype(float)
+        DQ = numpy.abs(Q64[:, None, :] - C[None, :, :]).sum(-1)
+        try:
+            with warnings.catch_warnings():
+                warnings.simplefilter("ignore")
+                p = numpy.asarray(est.predict(Q))
+                tr = numpy.asarray(est.transform(Q), dtype=float)
+        except Exception as e:
+            return bad + [("predict[L1]:raises", "predict/transform raise on a fitted L1 model" + tag,
+                           "%s: %s" % (type(e).__name__, str(e)[:120]), "labels / distances")]
+        if p.shape != (len(Q),) or not (DQ[numpy.arange(len(Q)), p] == DQ.min(axis=1)).all():
+            bad.append(("predict[L1]:not-nearest", "predict does not return a Manhattan-nearest centre" + tag, p.tolist(),
+                        DQ.argmin(axis=1).tolist()))
+        if tr.shape != DQ.shape or not (tr == DQ).all():
+            bad.append(("transform[L1]:not-manhattan", "transform is not the Manhattan distance to every centre" + tag,
+                        tr.tolist(), DQ.tolist()))
     return bad
 
 
@@ -535,10 +555,16 @@ def check_l2(K, case):
         est = cls(n_clusters=case["k"], init=init, n_init=case["n_init"], max_iter=case["max_iter"],
                   random_state=case["seed"], tol=case.get("tol", 1e-4), algorithm=case.get("algorithm", "lloyd"),
                   **extra)
+        # the same call on both: optional sample weights (constant, or small integers) are part of "the same fit"
+        w = None
+        if case.get("w") == "const":
+            w = numpy.full(len(X), 2.5)
+        elif case.get("w") == "ints":
+            w = numpy.array([1 + (i * 7 + case["seed"]) % 3 for i in range(len(X))], dtype=float)
         with warnings.catch_warnings():
             warnings.simplefilter("ignore")
             try:
-                est.fit(X)
+                est.fit(X, sample_weight=w)
                 res.append({"labels": est.labels_.tolist(), "centers": est.cluster_centers_.tolist(),
                             "inertia": float(est.inertia_), "n_iter": int(est.n_iter_),
                             "predict": est.predict(Q).tolist(), "transform": est.transform(Q).tolist(),
@@ -598,6 +624,7 @@ def search(ctx, hints):
             inp["kind"] = kind
             if kind == "L2":
                 inp["tol"], inp["algorithm"] = case.get("tol", 1e-4), case.get("algorithm", "lloyd")
+                inp["w"] = case.get("w")
             if "Q" in case:
                 inp["Q"] = case["Q"]
             v = Violation("KMeansL1L2." + key, what, inp, obs, req)
@@ -632,6 +659,7 @@ def search(ctx, hints):
             evals += 1
             case["tol"] = rng.choice([1e-4, 1e-2, 0.0, 0.5])
             case["algorithm"] = rng.choice(["lloyd", "elkan"])
+            case["w"] = rng.choice([None, None, "const", "ints"])
             record(case, "L2", check_l2(K, case))
         if len(samples) < 2 and origin == "gen":
             samples.append({"X": case["X"], "k": case["k"], "init": case["init"], "dtype": case["dtype"]})
